@@ -26,6 +26,7 @@ RULE = (
     "where some entries of the argument are exactly zero (powers with integer exponents, norms of vectors with a non-zero entry, products, "
     "inactive maximum / where, ...) at points with a drawn subset of entries set to exactly 0.0: the same second-order checks (rules that "
     "guard against zeros with where / replace_zero must still have the right derivative of their own)."
+    ' Later additions: hvpm:<template> (real differentiated argument, complex partners, optionally coupled to the input), saturated (14 elementwise functions at extreme magnitudes: finite and zero second derivatives), zero_entries families with a traced exponent, fixed_point (orders 1-3 through autograd.misc.fixed_points against the closed form).'
 )
 
 
